@@ -260,6 +260,12 @@ func (p *process) RemoteSpawn(
 		// so we use linking manually.
 		p.node.targetManager.AddLink(p.pid, pid)
 	}
+	if opts.LinkParent {
+		// the child's node has linked the child with this process. the other half of
+		// that relation must be known here: it is this node that has to report the
+		// termination of this process to the child's node
+		p.node.targetManager.AddLink(pid, p.pid)
+	}
 
 	return pid, err
 }
@@ -297,6 +303,12 @@ func (p *process) RemoteSpawnRegister(
 		// method LinkPID is not allowed to be used in the initialization state,
 		// so we use linking manually.
 		p.node.targetManager.AddLink(p.pid, pid)
+	}
+	if opts.LinkParent {
+		// the child's node has linked the child with this process. the other half of
+		// that relation must be known here: it is this node that has to report the
+		// termination of this process to the child's node
+		p.node.targetManager.AddLink(pid, p.pid)
 	}
 
 	return pid, err
